@@ -152,6 +152,17 @@ CLAIMS = {
              "reach grow_nodes without new input; population phases only move forward. Not decided: finiteness of weights/errors, capacity, lookup, elite bounds.",
         note="Phase ranks are taken from the enum declaration order (re-confirmed on change).",
         ref="DESIGN.md §5 C19"),
+    "C18": dict(
+        technique="sign / constant-set abstract interpretation of MIR (inductive field invariants, sampler-argument obligations, reward range) + finite-ordering evaluation",
+        text="Decided for every reward history under real-number semantics (NaN / overflow / underflow not modelled): the SlotMachine learning state keeps shape > 0, "
+             "rate > 0 and variance >= 0 — established by every constructor and preserved by every function that writes the fields (inductive sign invariant); "
+             "every gamma call gets shape > 0 and scale > 0 and every normal call a std >= 0 with no division by a possibly-zero value on the sampling path; the "
+             "distance reward is >= 0, the performance multiplier lies in its finite constant set within (~0.5, 3] and the reward fed to the learner is >= 0; the "
+             "arg-max comparator answers the true order of two samples (ties random); termination estimates are clamped to [0,1]; the variation criterion folds over "
+             "all objectives from true, an objective above the threshold blocks it, and its verdict is reported iff global or in the exploitation phase. Not decided: "
+             "finiteness (NaN/inf) of the state, mean within the hull of rewards, the reward upper bound 6, the value of the coefficient of variation, window bookkeeping.",
+        note="Assumes a gamma variate is >= 0 and finite rewards; float rounding/overflow is outside the sign domain.",
+        ref="DESIGN.md §5 C18"),
     "C20": dict(
         technique="def-use threading analysis of the quoted cost + measure agreement (TransportCost method / slot writer / value closure)",
         text="Narrow clauses: the quoted cost of a position is goal.estimate(activity move) + the route-level estimate, threaded unchanged to every leg, carried "
@@ -163,8 +174,6 @@ CLAIMS = {
 }
 
 NOT_APPLICABLE = {
-    "C18": "quantifies over float reward histories and numeric ranges (finite/positive/within hull): no clause whose truth is in the shape of the code; "
-           "the one structural clause (termination estimates clamped to [0,1]) is checked under C07-T1. Static analysis in reach cannot bound these runtime values.",
 }
 
 PENDING = "static rules for this property are designed (DESIGN.md §5) but not armed yet in this revision; not claimed until they run silent on the unchanged tree"
